@@ -633,6 +633,20 @@ func specIonType(t byte) Type {
 	return NoType
 }
 
+// bsAfterNext: what Next leaves behind when it succeeds, whatever state it started in: the
+// end of the container or input, a field id to be read, or a value.
+func bsAfterNext(b *bitstream) bool {
+	switch b.code {
+	case bitcodeEOF:
+		return b.state == bssBeforeValue || b.state == bssBeforeFieldID
+	case bitcodeFieldID:
+		return b.state == bssOnFieldID
+	case bitcodeNone:
+		return false
+	}
+	return b.state == bssOnValue
+}
+
 // bsOn: the stream is positioned on a non-null value of the given kind.
 func bsOn(b *bitstream, c bitcode) bool { return b.state == bssOnValue && b.code == c && !b.null }
 
